@@ -644,6 +644,11 @@ def dispatch(ctx):
                 got = lv[0].ret
                 if len(lv) == 1 and isinstance(got, FnPtr) and got.name == target:
                     rep.ok('F1', 'a_pid_fuzzy_opr[%s]' % E, 'maps to %s' % target, loc=loc)
+                elif E == 'default' and len(lv) == 1 and isinstance(got, FnPtr) and got.name in set(tab.values()):
+                    # an undocumented selector is no operator choice of the property: any of the documented operators (each decided by F3) will do
+                    rep.ok('F1', 'a_pid_fuzzy_opr[%s]' % E, 'an undocumented selector falls back to the documented operator %s' % got.name, loc=loc)
+                elif E == 'default':
+                    rep.unk('F1', 'a_pid_fuzzy_opr[%s]' % E, 'an undocumented selector maps to %r, none of the documented operators' % (got,), loc=loc)
                 else:
                     rep.bad('F1', 'a_pid_fuzzy_opr[%s]' % E, 'maps to %r, expected %s' % (got, target), loc=loc, key='a_pid_fuzzy_opr: %s' % E)
             except (Unsupported, KeyError) as e:
